@@ -477,7 +477,7 @@ func checkC19(c *Ctx) {
 
 func checkC20(c *Ctx) {
 	c.Anchors = []string{"plugin/do"}
-	c.Run.Rule = "executions of the emitted deriveDo for 2, 3 and 4 functions: every failing subset x EVERY completion order (enforced by token passing between the functions, so the order is logical, not timed) = 440 scenarios, each repeated with and without rendezvous (every function waits until all functions have started) at GOMAXPROCS 1/2/4/16, in a race build (emitted code untouched, Go race detector), the same in a module declaring go 1.21, and a yield build (yield point before every emitted statement); failing functions return errors of three different dynamic types. The function that finishes last lingers until Do has returned or a bound passes, so a Do that returns early is observed. Oracles: all functions started and finished before Do returned, values positionally equal, err nil iff no function failed else identical to one injected error, rendezvous scenarios complete (otherwise two goroutine dumps decide deadlock), no goroutine left in derived code, no race report. distinct_nontrivial = distinct (n, #failing, rendezvous, completion order)"
+	c.Run.Rule = "executions of the emitted deriveDo for 2, 3 and 4 functions: every failing subset x EVERY completion order (enforced by token passing between the functions, so the order is logical, not timed) = 440 scenarios, each repeated with and without rendezvous (every function waits until all functions have started) at GOMAXPROCS 1/2/4/16, in a race build (emitted code untouched, Go race detector), the same in a module declaring go 1.21, and a yield build (yield point before every emitted statement); failing functions return errors of three different dynamic types; plus, per arity, scenarios of TWO OVERLAPPING CALLS of the same derived Do from two goroutines (random failing subsets per call, a random common completion order of all 2n functions, with and without a per-call rendezvous), each call judged on its own values, its own error and its own functions having finished. The function that finishes last lingers until Do has returned or a bound passes, so a Do that returns early is observed. Oracles: all functions started and finished before Do returned, values positionally equal, err nil iff no function failed else identical to one injected error, rendezvous scenarios complete (otherwise two goroutine dumps decide deadlock), no goroutine left in derived code, no race report. distinct_nontrivial = distinct (n, #failing, rendezvous, completion order)"
 	c.Run.Assume = []string{"schedules are sampled; the completion-order dimension is exhaustive for n<=4"}
 	c.Run.Floor = 30
 	files := map[string]string{"go.mod": pgen.GoMod, "pa/pa.go": doPkg, "cmd/h/main.go": strings.Replace(concMain, "\t_ \"scratch/pb\"\n", "", 1)}
